@@ -294,6 +294,45 @@ theorem record_fromStrings_none (k0 : aoltypes.RecordCompositeKey) (ss : List By
     simp [aoltypes.RecordCompositeKey.asCompositeKey, aoltypes.RecordCompositeKey.FromStrings, Go.len]
     intro hh; exfalso; have := of_decide_eq_false hh; omega
 
+/-! ### shapes of decoded component lists -/
+theorem owner_shape (ss comps : List Bytes) (h : CompKey.fromStrings (toCodec bech) .owner ss = some comps) :
+    ∃ a, comps = [a] := by
+  match ss, h with
+  | [o], h =>
+    simp only [CompKey.fromStrings, Option.map_eq_some_iff] at h
+    obtain ⟨a, _, rfl⟩ := h; exact ⟨a, rfl⟩
+
+theorem topic_shape (ss comps : List Bytes) (h : CompKey.fromStrings (toCodec bech) .topic ss = some comps) :
+    ∃ a t, comps = [a, t] := by
+  match ss, h with
+  | [o, t], h =>
+    simp only [CompKey.fromStrings, Option.map_eq_some_iff] at h
+    obtain ⟨a, _, rfl⟩ := h; exact ⟨a, t, rfl⟩
+
+theorem writer_shape (ss comps : List Bytes) (h : CompKey.fromStrings (toCodec bech) .writer ss = some comps) :
+    ∃ a t x, comps = [a, t, x] := by
+  match ss, h with
+  | [o, t, w], h =>
+    simp only [CompKey.fromStrings, toCodec] at h
+    cases ho : bech.dec o with
+    | none => simp [ho] at h
+    | some a =>
+      cases hw : bech.dec w with
+      | none => simp [ho, hw] at h
+      | some b => simp only [ho, hw, Option.some.injEq] at h; exact ⟨a, t, b, h.symm⟩
+
+theorem record_shape (ss comps : List Bytes) (h : CompKey.fromStrings (toCodec bech) .record ss = some comps) :
+    ∃ a t n, n < 2 ^ 64 ∧ comps = [a, t, be64 n] := by
+  match ss, h with
+  | [o, t, n], h =>
+    simp only [CompKey.fromStrings, toCodec] at h
+    cases ho : bech.dec o with
+    | none => simp [ho] at h
+    | some a =>
+      cases hn : CompKey.parseUint64 n with
+      | none => simp [ho, hn] at h
+      | some off => simp only [ho, hn, Option.some.injEq] at h; exact ⟨a, t, off, parseUint64_lt n off hn, h.symm⟩
+
 /-! ## the round trip of C18, on the translated functions -/
 
 theorem roundtrip_generic {κ : Type} (I : compkey.CompositeKey κ) (key out res : κ) (c : CompKey.AddrCodec)
